@@ -173,7 +173,7 @@ def run_streams(pid, tier, seed, outdir, log, extra_env=None, only=None):
         if extra_env:
             env.update(extra_env)
         binary = os.path.join(B, "hx.race.test" if st.get("race") else "hx.test")
-        tmo = st.get("timeout", 600) * (6 if tier == "thorough" else 1)
+        tmo = min(st.get("timeout", 300), 300) * (8 if tier == "thorough" else 1)
         t0 = time.time()
         try:
             rc, out = sh([binary, "-test.run", "^%s$" % st["test"], "-test.timeout", "%ds" % tmo, "-test.v"], cwd=outdir, env=env, timeout=tmo + 60, limit=True)
@@ -290,7 +290,7 @@ def main(argv):
                 if os.path.exists(sp):
                     st = json.load(open(sp))
                     stats_all.append(st)
-                    findings += [f for f in st.get("findings", []) if f["property"] == pid]
+                    findings += [f for f in (st.get("findings") or []) if f["property"] == pid]
                 if driver_ok:
                     c = run_driver(outdir, nm)
                     if c:
@@ -299,7 +299,8 @@ def main(argv):
                             broken.append("correspondence %s line %d: op=%s impl=%s model=%s" % (nm, d["line"], d["op"][:300], d["impl"][:200], d["model"][:200]))
 
     # targeted search when something broke but the monitors are silent
-    if broken and not findings and h_ok:
+    timed_out = any(r["rc"] == 124 for r in stream_results)
+    if broken and not findings and h_ok and not timed_out:
         budget = 600 if tier == "thorough" else 60
         ts = time.time()
         k = 1
@@ -311,7 +312,7 @@ def main(argv):
                 for nm in r["names"]:
                     sp = os.path.join(sd, nm + ".stats.json")
                     if os.path.exists(sp):
-                        findings += [f for f in json.load(open(sp)).get("findings", []) if f["property"] == pid]
+                        findings += [f for f in (json.load(open(sp)).get("findings") or []) if f["property"] == pid]
             k += 1
 
     known = [k for k in load_known() if k.get("property") == pid and k.get("status") == "known"]
@@ -341,7 +342,7 @@ def main(argv):
     dn = sum(s["distinct_nontrivial"] for s in stats_all)
     samples = []
     for s in stats_all:
-        samples += s.get("samples", [])[:4]
+        samples += (s.get("samples") or [])[:4]
     samples += ["theorem " + o for o in obligations[:6]]
     ev = {
         "property_id": pid, "tier": tier, "seed": seed, "level": "proof",
